@@ -127,8 +127,9 @@ class C06(PropBase):
                 continue
             if r < 0.08:
                 lit = gen.gen_literal(rng)
-                bad = rng.choice([9, "zz", {"$f": "2.5"}, None, True, "1", 1, 0, "", False])
-                bv = float(bad["$f"]) if isinstance(bad, dict) else bad
+                bad = rng.choice([9, "zz", {"$f": "2.5"}, None, True, "1", 1, 0, "", False,
+                                  {"$list": [1]}, {"$dict": [["a", 1]]}, {"$ba": "61"}, {"$set": [1]}, {"$list": []}])  # unhashable ones too
+                bv = float(bad["$f"]) if isinstance(bad, dict) and "$f" in bad else (object() if isinstance(bad, dict) else bad)
                 member = any(bv == m for m in lit["v"])
                 steps.append({"op": "marshal", "t": lit, "v": bad, "mod": rng.choice(mods), "nonmember": not member})
                 continue
